@@ -1284,6 +1284,7 @@ func (s *Server) processPubrel(cl *Client, pk packets.Packet) error {
 
 	ack := s.buildAck(pk.PacketID, packets.Pubcomp, 0, pk.Properties, packets.CodeSuccess) // [MQTT-4.3.3-11]
 	cl.State.Inflight.Set(ack)
+	s.hooks.OnQosPublish(cl, ack, ack.Created, 0) // the PUBCOMP replaces the PUBREC in flight until it is written
 
 	err := cl.WritePacket(ack)
 	if err != nil {
